@@ -160,6 +160,23 @@ class VecTrack:
     def touches(self, addrs, p):
         return ''.join(f'{p}{self.touch}({a});\n' for a in addrs)
 
+    # ------------------------------------------------------------------ expression hook
+    def expr_hook(self, P, n):
+        """an assignment to a tracked vector nested inside a larger expression (`f(yk = a - b)`): the vector gets a fresh
+        identity at that point and the expression denotes the vector"""
+        if n.get('kind') != 'CXXOperatorCallExpr' or len(n.get('inner', [])) != 3 or id(n) == getattr(P, 'discard_id', None):
+            return None
+        op = unwrap(n['inner'][0]).get('referencedDecl', {}).get('name')
+        if op not in ASSIGN_OPS:
+            return None
+        lm = self.mention(unwrap(n['inner'][1]))
+        if lm is None or lm[0] != 'vec':
+            return None
+        self.check_pure(P, n['inner'][2], f'value assigned to a tracked vector ({op}, nested)')
+        a = P.addr(lm[1])
+        P.note(f'tracked vector: nested {op} -> touch')
+        return f'(*({self.touch}({a}), {a}))'
+
     # ------------------------------------------------------------------ the statement hook
     def stmt_hook(self, P, n, ind):
         k = n.get('kind')
